@@ -6,7 +6,7 @@ import ast
 from sa.astx import dotted
 from sa.selftest import Mutant, Silent
 from sa.source import AnalysisError, methods
-from sa.props._lib_b import BIG, Interp, Spec, Unsupported, exit_check, fifo_rule, make_state, report_interp
+from sa.props._lib_b import BIG, Interp, Spec, Unsupported, exit_check, fifo_rule, make_state, per_instance_state, report_interp
 
 PROPERTY = "C07"
 DEFER = "internet/defer.py"
@@ -341,6 +341,9 @@ def check(ctx):
     with ctx.section("fifo pending"):
         fifo_rule(ctx, mod, cls, MODNAME, "pending", set(), rule="queue/fifo-pending", floor=2)
 
+    for attr in ("waiting", "pending"):
+        with ctx.section(f"per-instance {attr}"):
+            per_instance_state(ctx, mod, cls, attr, MODNAME)
     with ctx.section("init"):
         # __init__ establishes the invariant and stores the limits
         init = ctx.func(DEFER, "DeferredQueue.__init__")
@@ -441,4 +444,16 @@ SILENT = [
     Silent("get-fires-own-deferred", DEFER, "            return succeed(self.pending.pop(0))\n",
            "            ready = Deferred()\n            ready.callback(self.pending.pop(0))\n            return ready\n"),
     Silent("len-tests", DEFER, "        if self.pending:\n            return succeed", "        if len(self.pending) > 0:\n            return succeed"),
+]
+
+_Q_INIT = "        self.waiting: List[Deferred[_T]] = []\n        self.pending: List[_T] = []\n"
+MUTANTS += [
+    # the two lists become class-level defaults: every DeferredQueue of the process shares them
+    Mutant("lists-shared-between-queues", DEFER, "    def __init__(\n        self, size: Optional[int] = None, backlog: Optional[int] = None\n    ) -> None:\n" + _Q_INIT,
+           "    waiting: List[Any] = []\n    pending: List[Any] = []\n\n    def __init__(\n        self, size: Optional[int] = None, backlog: Optional[int] = None\n    ) -> None:\n",
+           expect_rule="init/per-instance-state"),
+    Mutant("pending-shared-default-argument", DEFER, "        self.pending: List[_T] = []\n", "        self.pending = _EMPTY\n", expect_rule="init/per-instance-state"),
+]
+SILENT += [
+    Silent("lists-from-constructor-calls", DEFER, _Q_INIT, "        self.waiting = list()\n        self.pending = list()\n"),
 ]
